@@ -100,6 +100,27 @@ def run(rep):
                 "plus multi-file and directory scenarios for exit status and file collection. Non-trivial = distinct flag vector with at least one flag.")
     n = 260 if quick else 2500
     cases = []
+    # fixed rows (own random stream, so that the sampled rows below do not depend on them): every preset level alone on images on
+    # which neighbouring compression levels give different bytes, and every documented form of a --keep list on a file that carries
+    # every chunk those lists name
+    import random as _random
+    r2 = _random.Random(rep.seed * 7 + 1)
+    for lvl in ["0", "1", "2", "3", "4", "5", "6", "max"]:
+        for rep_i in range(2 if quick else 6):
+            w, h = 96, 64
+            base = [[((x * 3 + y * 2 + (x * y >> 4)) & 255) for x in range(w)] for y in range(h)]
+            data = bytes((base[y][x] + c * 40 + (r2.randrange(7) if (x + y) % 3 else 0)) & 255 for y in range(h) for x in range(w) for c in range(3))
+            cases.append(({"o": lvl}, e2e.png_from_token(r2, pg.img_token(w, h, 2, 8, False, None, data), simple=True), "stdout"))
+    hx = lambda n_: n_.encode().hex()
+    for keep in ["display", hx("tEXt"), "display+" + hx("tEXt"), hx("pHYs") + "+" + hx("iCCP"), hx("tEXt") + "+display", hx("eXIf") + "+display+" + hx("tEXt"),
+                 hx("tEXt") + "+" + hx("tIME") + "+display", hx("zTXt") + "+display", "display+" + hx("eXIf") + "+" + hx("tIME"), hx("tIME") + "+" + hx("tEXt"),
+                 "display+" + hx("zTXt") + "+" + hx("eXIf")]:
+        tok, _ = imggen.gen(r2, 2, 8, 9, 7, False, "random", "none")
+        pre = [(b"gAMA", chunkgen.payload(r2, b"gAMA", 2, 8, 0)), (b"pHYs", chunkgen.payload(r2, b"pHYs", 2, 8, 0))]
+        post = [(b"tEXt", chunkgen.payload(r2, b"tEXt", 2, 8, 0)), (b"tIME", chunkgen.payload(r2, b"tIME", 2, 8, 0)),
+                (b"eXIf", bytes(r2.randrange(256) for _ in range(12))), (b"zTXt", b"k\0\0" + bytes.fromhex("789c030000000001"))]
+        cases.append(({"keep": keep, "force": "1"}, e2e.png_from_token(r2, tok, pre=pre, post=post, simple=True), "stdout"))
+    nfixed = len(cases)
     for k in range(n):
         kv = rand_flags(rng)
         if k % 13 == 7:
